@@ -349,12 +349,7 @@ def run(cx):
     cx.consulted(em)
     cx.consulted(pm)
     cx.explanation = (
-        "the list helper templates are instantiated, parsed by clang and (a) checked for ownership discipline on the typed AST "
-        "(rule of three, delete-before-overwrite, no aliasing stores, self-assignment guard, identical const/non-const getters), "
-        "(b) abstractly interpreted on a grid of concrete list sizes / range arguments with exact loop unrolling and allocation "
-        "tracking, so that every buffer index is compared with the allocated extent and every delete with the live set; the "
-        "parser's copy policy and static-length bookkeeping are checked structurally.  Absence of out-of-bounds accesses for all "
-        "programs and heap constancy across passes are not decided."
+        "the list helper templates are instantiated, parsed by clang and evaluated with C semantics and a tracked heap (new[]/delete[], bounds, use after free, double free, leaks, pointer arithmetic) on every list of <= 4 elements over two values and a grid of ranges, against Python's list semantics; ownership discipline (rule of three, delete-before-overwrite, no aliasing stores) on the typed AST; the parser's copy policy on scripts plus an ownership simulation of the loop IR; the static length model on prologues with run-time values. Absence of out-of-bounds accesses for all programs and heap constancy across passes are not decided."
     )
     fns, snippet, names = list_helpers(em)
     line = em.const("LIST_HELPER_SNIPPET").lineno
